@@ -1296,6 +1296,47 @@ Proof.
   - intros k Hk. apply in_map_iff in Hk. destruct Hk as (j & <- & Hj). apply in_seq in Hj. lia.
 Qed.
 
+(* ======================================================================== _ray_quad: both roots *)
+(* both roots stored by _ray_quad *)
+Lemma ray_quad_roots (a b c : R) : 0 <= a -> (a = 0 -> b = 0) ->
+  (b * b - a * c < EPS /\ snd (_ray_quad a b c) = [-1; -1])
+  \/ (EPS <= b * b - a * c /\ 0 < a /\ exists x0 x1, snd (_ray_quad a b c) = [x0; x1] /\ x0 <= x1 /\
+      quad a b c x0 = 0 /\ quad a b c x1 = 0 /\ forall t, quad a b c t = 0 -> t = x0 \/ t = x1).
+Proof.
+  intros Ha Hab. unfold _ray_quad, safe_div__S_S. sR. fold EPS.
+  destruct (Rltb (b * b - a * c) EPS) eqn:Ed.
+  - rb. left. cbn [snd]. split; [lra|]. replace (- (1)) with (-1) by lra. reflexivity.
+  - rb. pose proof EPS_pos as He. right.
+    assert (Hap : 0 < a).
+    { destruct (Req_dec a 0) as [Ha0 | Ha0]; [| lra]. rewrite Ha0, (Hab Ha0) in Ed. lra. }
+    destruct (Reqb a 0) eqn:Ea; [rb; lra|]. cbn [negb].
+    set (s := sqrt (b * b - a * c)).
+    assert (Hs : s * s = b * b - a * c) by (apply sqrt_sqrt; lra).
+    assert (Hs0 : 0 <= s) by apply sqrt_pos.
+    set (x0 := (- b - s) * (1 / a)). set (x1 := (- b + s) * (1 / a)).
+    assert (H0 : a * x0 = - b - s) by (unfold x0; field; lra).
+    assert (H1 : a * x1 = - b + s) by (unfold x1; field; lra).
+    assert (Q0 : quad a b c x0 = 0).
+    { unfold quad. replace (a * x0 * x0) with ((a * x0) * (a * x0) * (1 / a)) by (field; lra).
+      replace (2 * b * x0) with (2 * b * (a * x0) * (1 / a)) by (field; lra). rewrite H0.
+      replace c with ((a * c) * (1 / a)) at 1 by (field; lra).
+      replace (a * c) with (b * b - s * s) by lra. field. lra. }
+    assert (Q1 : quad a b c x1 = 0).
+    { unfold quad. replace (a * x1 * x1) with ((a * x1) * (a * x1) * (1 / a)) by (field; lra).
+      replace (2 * b * x1) with (2 * b * (a * x1) * (1 / a)) by (field; lra). rewrite H1.
+      replace c with ((a * c) * (1 / a)) at 1 by (field; lra).
+      replace (a * c) with (b * b - s * s) by lra. field. lra. }
+    split; [lra|]. split; [assumption|]. exists x0, x1.
+    split; [destruct (Rleb 0 x0); [reflexivity | destruct (Rleb 0 x1); reflexivity]|].
+    split; [apply (Rmult_le_reg_l a); [assumption | lra]|].
+    split; [assumption|]. split; [assumption|].
+    intros t Qt. unfold quad in Qt, Q0.
+    assert (Hf : (t - x0) * (a * t + a * x0 + 2 * b) = 0) by nra.
+    apply Rmult_integral in Hf. destruct Hf as [Hf | Hf]; [left; lra|].
+    right. assert (a * t = a * x1) by lra. apply (Rmult_eq_reg_l a); lra.
+Qed.
+
+
 (* ======================================================================== scene-BVH leaf layout: write side *)
 (* what build / refit write is what _ray_bvh and cast_ray read: with stride ngeom + nflexgeom the leaf of
    (world w, enabled geom k) is mapped back to enabled_geom_ids[k], the flex leaves are skipped, and no two
